@@ -400,4 +400,21 @@ def latestConfigBacked : List Step → Nat → Option Nat
          | none => false)
     if ok s.pre && !ok s.post then some k else latestConfigBacked rest (k + 1)
 
+/-- C18: the leader a follower names changes only through requests of a term at least its own —
+    a request of an older term (refused in any case) must not rename the leader -/
+def staleRequestKeepsLeader : List Step → Nat → Option Nat
+  | [], _ => none
+  | s :: rest, k =>
+    let reqTerm : Option Nat := match s.ev with
+      | .append a _ _ => some a.term
+      | .install q _ _ => some q.term
+      | .vote q _ _ => some q.term
+      | .prevote q => some q.term
+      | _ => none
+    let bad : Bool := match reqTerm with
+      | some t => !s.post.dead && !s.post.panic && t < s.pre.vol.term &&
+                  (s.post.vol.leader != s.pre.vol.leader || s.post.vol.leaderId != s.pre.vol.leaderId)
+      | none => false
+    if bad then some k else staleRequestKeepsLeader rest (k + 1)
+
 end SV
